@@ -851,6 +851,11 @@ def enum_story_messages(sids, ro_id='RO1', max_sources=3, mid=2000, unknown='ZZ-
             yield 'EAStoryReplace', env(B.ea_story_replace(ro_id, t, [plain_story(t, ['J1'])]))
             yield 'roStoryReplace', env(B.story_replace(ro_id, t, [plain_story('N0'), plain_story(t, ['J1'])]))
             yield 'EAStoryReplace', env(B.ea_story_replace(ro_id, t, [plain_story('N0'), plain_story(t, ['J1'])]))
+            # a replacement that also carries a story whose ID another story of the running order has
+            # (the outcome for that story is not prescribed; everything the message does not name is)
+            for other in [x for x in sids if x and x != t][-1:]:
+                yield 'roStoryReplace', env(B.story_replace(ro_id, t, [plain_story(t, ['J1']), plain_story(other, ['J2'])]))
+                yield 'EAStoryReplace', env(B.ea_story_replace(ro_id, t, [plain_story(other, ['J2']), plain_story('N0')]))
         body = [P('para'), B.mk_item('J0', slug='x'), P('(note)')]
         body[1].tag = 'storyItem'
         yield 'roStorySend', env(B.story_send(ro_id, t, head=[T('storySlug', 'resent')], body=body))
